@@ -12,7 +12,7 @@ READY = True
 LEVEL = "exploration"
 WORKERS = {"quick": 8, "thorough": 16}
 BUDGET = {"quick": 60, "thorough": 420}
-MIN_NONTRIVIAL = {"quick": 3000, "thorough": 60000}
+MIN_NONTRIVIAL = {"quick": 2000, "thorough": 30000}
 REQUIRED_HOOKS = ["evaluate:I", "evaluate:C", "direct", "IntType.__lt__", "IntType.__eq__", "ListType.__eq__", "MapType.__eq__", "MapType.__ne__", "DoubleType.__eq__", "UintType.__eq__"]
 RULE = (
     "Pairs and triples of same-type values (int, uint, double without NaN, string, bytes, bool, timestamp, duration; lists and maps of those, nested to depth 2; null) "
